@@ -54,6 +54,12 @@ fn main() {
     for cut in [0usize, 1, 2, 5, 17, 64, n / 2, n - 9, n - 1] {
         if cut < n { present(bytes[..cut].to_vec(), cut, -1); }
     }
+    // bytes appended after a complete proof (offset = n + number of appended bytes, bit = -2)
+    for (k, fill) in [(1usize, 0x00u8), (1, 0xff), (8, 0x01), (64, 0x00)] {
+        let mut b = bytes.clone();
+        b.extend(std::iter::repeat(fill).take(k));
+        present(b, n + k, -2);
+    }
     println!("SUMMARY proof_len={n} presentations={total} failures={fails}");
     std::process::exit(if fails > 0 { 1 } else { 0 });
 }
